@@ -373,6 +373,45 @@ func runC22(c *Ctx) {
 				"the same-bank timing row of "+nd.from+" has (on some configuration path: each assignment replaces the row) no "+nd.why+" entry derived from "+strings.Join(nd.spec, "+")+": that minimum separation is not enforced")
 		}
 	}
+	// who may write the countdowns: the per-tick decrement and the issue-time raise only
+	if cf := c.field("countdown-ownership", "mem/dram", "bankState", "CyclesToCmdAvailable"); cf != nil {
+		n := 0
+		for _, fn := range p.SrcFuncs(func(pp string) bool { return pp == pkgPath("mem/dram") }) {
+			for _, b := range fn.Blocks {
+				for _, in := range b.Instrs {
+					st, ok := in.(*ssa.Store)
+					if !ok {
+						continue
+					}
+					through := false
+					for a, d := st.Addr, 0; a != nil && d < 6; d++ {
+						if fo := FieldOf(a); fo != nil && sameObj(fo, cf) {
+							through = true
+						}
+						switch y := a.(type) {
+						case *ssa.IndexAddr:
+							a = y.X
+						case *ssa.FieldAddr:
+							a = y.X
+						default:
+							a = nil
+						}
+					}
+					if !through {
+						continue
+					}
+					if _, fresh := memRoot(st.Addr).(*ssa.Alloc); fresh {
+						continue // a bank state under construction
+					}
+					n++
+					ok2 := fn.Name() == "tickBank" || fn.Name() == "updateAllBankTiming"
+					c.Check(ok2, "countdown-ownership", SSAFuncKey(fn)+"@CyclesToCmdAvailable", st.Pos(), "countdowns are written only by the per-tick decrement and the issue-time raise",
+						SSAFuncKey(fn)+" writes a bank's command countdowns: besides the same-bank gaps they hold the bus-level gaps raised by commands on other banks (write-to-read and read-to-write turnaround, rank switch); resetting or lowering them lets the next column command issue inside such a gap")
+				}
+			}
+		}
+		c.Check(n >= 2, "countdown-ownership", "instances", 0, "countdown writes found", "fewer than two writes of the countdowns found")
+	}
 	// countdown discipline
 	if f := c.fn("countdown", "mem/dram", "", "tickBank"); f != nil {
 		t := ExtractTable(p, f, TableConfig{Domain: []int{0, 1, 2}, LoopsOnce: true})
